@@ -189,6 +189,49 @@ theorem ihex_aligned_bytes (bits : Bits) (b : Block) (q : Nat) (ha : b.offset = 
   congr 1
   rw [ha]; omega
 
+/-! ### addresses beyond 64 KiB (finding F72, repaired) -/
+
+/-- a reader of the file: a type-04 record sets the upper 16 address bits of the data records that follow -/
+def readLines : Nat → List IHexLine → List (Nat × List Nat)
+  | _, [] => []
+  | _, .ext v :: ls => readLines v ls
+  | u, .data a bytes :: ls => (u * 65536 + a, bytes) :: readLines u ls
+
+/-- **every data record is read back at its full address** (32 bits, the reach of the format), with its bytes, in order:
+    the extended-address records written between them are exactly the ones a reader needs -/
+theorem ihex_full_addresses (rs : List IHexRecord) (u : Nat) :
+    readLines u (ihexLines u rs) = rs.map fun r => (r.addr % 4294967296, r.bytes) := by
+  induction rs generalizing u with
+  | nil => rfl
+  | cons r rs ih =>
+    simp only [ihexLines, List.map_cons]
+    by_cases h : (r.addr / 65536) % 65536 = u
+    · subst h
+      simp only [ne_eq, not_true_eq_false, if_false, List.nil_append, readLines, ih]
+      congr 2; omega
+    · simp only [ne_eq, h, not_false_eq_true, if_true, List.singleton_append, readLines, ih]
+      congr 2; omega
+
+/-- no extended-address record is written while the addresses stay below 64 KiB: small outputs are unchanged -/
+theorem ihex_small_has_no_ext (rs : List IHexRecord) (h : ∀ r ∈ rs, r.addr < 65536) :
+    ihexLines 0 rs = rs.map fun r => .data r.addr r.bytes := by
+  induction rs with
+  | nil => rfl
+  | cons r rs ih =>
+    have hr := h r List.mem_cons_self
+    have h0 : (r.addr / 65536) % 65536 = 0 := by omega
+    simp only [ihexLines, h0, ne_eq, not_true_eq_false, if_false, List.nil_append, List.map_cons]
+    rw [ih (fun x hx => h x (List.mem_cons_of_mem _ hx))]
+    congr 2; omega
+
+/-- the checksum of an extended-address record: its six bytes and the checksum add up to 0 modulo 256 -/
+theorem ihex_ext_checksum (u : Nat) :
+    (2 + 4 + (u / 256) % 256 + u % 256 + (256 - (2 + 4 + (u / 256) % 256 + u % 256) % 256) % 256) % 256 = 0 := by
+  omega
+
+example : ihexLines 0 [⟨0, [1]⟩, ⟨0x10000, [2]⟩, ⟨0x10020, [3]⟩, ⟨0x20, [4]⟩] =
+    [.data 0 [1], .ext 1, .data 0 [2], .data 0x20 [3], .ext 0, .data 0x20 [4]] := by decide
+
 example : fmtStr 4 [true, false, true, false, true, true] = ['a', 'c'] := by decide
 example : (chunks [true, false, true, false, true, true] 4).flatMap (toBitsMSB 4) =
     [true, false, true, false, true, true, false, false] := by decide
